@@ -19,6 +19,8 @@
                   pairs of the selected 8-lane lists): replacing operand b by operand a (the op(x, x) reading of the call) is
                   right in exactly the lanes where the two lists agree; the designation families partition the pairs as the
                   trace specification expects; comparing half of the lanes does not decide "eq".
+   wide:          (operand and call phases) the limb forms AddrW / FootprintW / ExtentW / LanesAtW / InjectiveW / CellOkW /
+                  ChangedCellsW, used for calls with strides and index-list entries beyond 32 bits, agree with the integer forms.
    table:         every row of Overloads17 is well-formed. *)
 EXTENDS Layout, Overloads17, ParChunks
 VARIABLES ph, od, cc, pc, ip, sb
@@ -80,6 +82,13 @@ OperandInv ==
        /\ (d.kind = "scalar" => F = (IF d.byref THEN {0} ELSE {}))
        /\ \A x \in F : LanesAt(d, n, s, ix, x) # {}
        /\ (InMemory(d) => UNION {LanesAt(d, n, s, ix, x) : x \in F} = Lanes(n))
+       \* the limb forms (wide positions) say the same
+       /\ LET sw == OfInt(s)  ixw == [i \in DOMAIN ix |-> OfInt(ix[i])]
+          IN /\ \A k \in Lanes(n) : AddrW(d, k, sw, ixw) = OfInt(Addr(d, k, s, ix))
+             /\ FootprintW(d, n, sw, ixw) = {OfInt(x) : x \in F}
+             /\ ExtentW(d, n, sw, ixw) = OfInt(E)
+             /\ \A x \in F : LanesAtW(d, n, sw, ixw, OfInt(x)) = LanesAt(d, n, s, ix, x)
+             /\ InjectiveW(d, n, sw, ixw) = Injective(d, n, s, ix)
 
 (* a store for an operand: its arena plus one undesignated cell behind it, or its register lanes, or the by-value element *)
 Cells(o, n) == IF InMemory(o.d) THEN 0..Extent(o.d, n, o.s, o.idx) ELSE IF o.d.kind = "reg" THEN Lanes(n) ELSE {0}
@@ -103,7 +112,15 @@ CallInv ==
        /\ (InMemory(cc.c.d) =>
             /\ Fc \subseteq DOMAIN mc
             /\ \A x \in Fc : CellOk(cc.op, cc.c.d, n, cc.c.s, cc.c.idx, x, After[x], av, bv)
-            /\ {x \in DOMAIN mc : After[x] # mc[x]} \subseteq Fc)
+            /\ {x \in DOMAIN mc : After[x] # mc[x]} \subseteq Fc
+            \* the limb forms accept the same cells and predict the same changed positions
+            /\ LET cw == OfInt(cc.c.s)  cxw == [i \in DOMAIN cc.c.idx |-> OfInt(cc.c.idx[i])]
+                   rv == [k \in 1..n |-> After[Addr(cc.c.d, k - 1, cc.c.s, cc.c.idx)]]
+                   pre == [k \in 1..n |-> IF k % 2 = 0 THEN <<>> ELSE rv[k]]
+               IN /\ \A x \in Fc : CellOkW(cc.op, cc.c.d, n, cw, cxw, OfInt(x), After[x], av, bv)
+                  /\ \A x \in Fc : CellOkW(cc.op, cc.c.d, n, cw, cxw, OfInt(x), FAdd(After[x], One8), av, bv)
+                                      = CellOk(cc.op, cc.c.d, n, cc.c.s, cc.c.idx, x, FAdd(After[x], One8), av, bv)
+                  /\ ChangedCellsW(cc.c.d, n, cw, cxw, rv, pre) = {OfInt(x) : x \in ChangedCells(cc.c.d, n, cc.c.s, cc.c.idx, rv, pre)})
 
 (* reference execution of v = op(v, b) in place, lanes ascending, every lane reading the current memory; the broadcast
    element is cell sx of the same array: copied at entry (by value) or re-read through a reference (byref) *)
